@@ -355,7 +355,7 @@ SMILES_OK = (
     "[H]C([H])([H])[H]", "[2H]C([3H])=O", "[O--]", "[Fe+++]", "[NH3+][CH2][C](=O)[O-]", "C%11CC%11C%12CC%12",
     "C/C=C/C=C/C", "C[S@](=O)N", "[C@H]1(F)(Cl)CCC1", "O=C(O)[C@@H]1CCCN1", "C12C3C4C1C5C2C3C45",
 )
-SMILES_BAD = ("C:C:C", "C:C:C:C:C", "N:O:C", "c1ccc2c(c1)ccn2", "c1ccc2c(c1)cco2C", "c1cccc1", "c1ccccc1c", "n1cccc1",
+SMILES_BAD = ("c1ccsec1", "c1ccasc1", "Csic", "c1cctec1", "alc", "c1ccsic1", "C:C:C", "C:C:C:C:C", "N:O:C", "c1ccc2c(c1)ccn2", "c1ccc2c(c1)cco2C", "c1cccc1", "c1ccccc1c", "n1cccc1",
               "c12c3ccc1cc2c3c", "c1cc2cccc2c1", "C(", "C1CC", "cc", "[Xx]", "C)", "", "C((C))", "C=", "c1ccc1", "C$C", "C*", "[C", "C1CC2",
               "1CC1", "(C)", "C..C", "C.", "c1cccc1", "[nH]1ccccc1", "C%1", "C[C@@@H]", "C:::C",
               "C1=CC=1", "C(C)(", ".C")
